@@ -1,2 +1,14 @@
-/- C08 — property theorems (being extended); the reader model these will be about: -/
-import E57.Model.Simple
+/-
+C08 — Reading untrusted bytes never panics.
+
+Main theorems (E57/Proofs/ReaderTotal.lean): in the model every Rust panic site of the bit buffers
+(slice bounds, usize underflow, `ilog2` of a non-positive range) is the outcome `.panic`;
+ * `RBuf.extract_no_panic`, `unpackInts_wf`, `unpackFixed_wf`  bit buffers never reach a panic site for any bytes
+ * `parseStream_no_panic`, `advance_no_panic`, `advance_wf`   one `advance` is a function of the page-layer I/O only
+ * `Reader.open_rangeOk`   every prototype the XML reader accepts has min <= max within i64 (so `ilog2` is safe)
+ * `reader_total`          for ANY bytes, XML oracle and float parser: after opening and any number of `next`
+                           calls the invariants hold, the file is unchanged, held bytes <= file size
+Panic sites outside the modelled core (roxmltree, float parsing, `Vec` allocation failure) are exercised by the
+mutation suite (harness, catch_unwind, overflow-checked build), not proved.
+-/
+import E57.Proofs.ReaderTotal
